@@ -231,6 +231,22 @@ class World(object):
         return 'f.' + attr
 
 
+_QCACHE = {}
+
+
+def _has_quantifier(e):
+    i = e.get_id()
+    r = _QCACHE.get(i)
+    if r is not None:
+        return r
+    if z3.is_quantifier(e):
+        r = True
+    else:
+        r = any(_has_quantifier(c) for c in e.children())
+    _QCACHE[i] = r
+    return r
+
+
 class Executor(object):
     MAX_INLINE = 5
 
@@ -269,6 +285,16 @@ class Executor(object):
         if z3.is_false(last):
             return False
         self.nfeas += 1
+        # 1. the quantifier-free part alone (a subset that is unsatisfiable makes the whole path infeasible; without
+        #    quantifiers the answer comes at once)
+        qf = [c for c in st.pc if not _has_quantifier(c)]
+        if len(qf) != len(st.pc):
+            s = z3.Solver()
+            s.set('timeout', self.feas_timeout)
+            for c in qf:
+                s.add(c)
+            if s.check() == z3.unsat:
+                return False
         s = z3.Solver()
         s.set('timeout', self.feas_timeout)
         for a in self.global_axioms():
